@@ -16,3 +16,27 @@ func init() {
 		}}}
 	}
 }
+
+func examples(vs ...string) ExtV { return ExtV{sh.E_FieldExamples, &sh.FieldExamples{Values: vs}} }
+
+func init() {
+	// "mock": response fields with example lists, generated with generate_mock=true
+	schemas["mock"] = func() Schema {
+		p := ".acme.mock."
+		return Schema{Files: []File{{
+			Name: "gen/mock/mock.proto", Package: "acme.mock", GoPackage: "verifmod/gen/mock;mock",
+			Deps: []string{"proto/sebuf/http/annotations.proto"},
+			Messages: []M{
+				{Name: "Req", Fields: []F{{Name: "id", Num: 1, Type: TString}}},
+				{Name: "Resp", Fields: []F{
+					{Name: "big", Num: 1, Type: TInt64, Ext: []ExtV{examples("7", "2147483648", "abc")}},
+					{Name: "title", Num: 2, Type: TString, Ext: []ExtV{examples("alpha", "beta")}},
+					{Name: "ok", Num: 3, Type: TBool, Ext: []ExtV{examples("true", "false")}},
+					{Name: "ratio", Num: 4, Type: TDouble, Ext: []ExtV{examples("1.5")}},
+					{Name: "plain", Num: 5, Type: TInt64},
+				}},
+			},
+			Services: []S{{Name: "MockedService", Methods: []Me{{Name: "Get", In: p + "Req", Out: p + "Resp", Ext: []ExtV{HTTP(sh.HttpMethod_HTTP_METHOD_POST, "/get")}}}}},
+		}}}
+	}
+}
